@@ -33,7 +33,7 @@ pub fn title_sets(tier: Tier, f1: (u32, u32), f2: (u32, u32), f4: (u32, u32)) ->
 
 impl C13 {
     pub fn new(tier: Tier) -> C13 {
-        C13 { sets: title_sets(tier, (6, 8), (5, 6), (6, 7)) }
+        C13 { sets: title_sets(tier, (6, 9), (5, 7), (6, 8)) }
     }
 }
 
